@@ -258,7 +258,7 @@ class Family:
                "model_twin_rejects": self.rejects, "samples": self.samples[:6],
                "evaluations": self.evals, "distinct_nontrivial": self.distinct, "rule": rule,
                "tours": self.tours, "random": getattr(self, "random_stats", None),
-               "drift_on_special_names": self.drift,
+               "drift_on_special_names": self.drift, "special_object_stats": getattr(self, "special_stats", None),
                "discrepancies_attributed_to_other_properties": self.other}
         return ctx.finish("model_checking", cov, ASSUMPTIONS)
 
@@ -296,6 +296,11 @@ def run(ctx):
     fam.replay("c16dyn", b3, DYN, dotu=True)
     # large random trees, deep paths through the real client
     fam.random(cases=10 if q else 150, steps=120 if q else 250)
+    # every other kind of host object (FIFO, socket, set-id files and directories, dangling links): stat against os.Lstat,
+    # again on the same fid after a host-side change, and through a longer walk
+    srep = ctx.go_engine("ufstree", "TestSpecialStat", timeout=300, name="specialstat")
+    fam.evals += srep.get("stats", {}).get("steps_executed", 0)
+    fam.special_stats = srep.get("stats", {}).get("steps_executed", 0)
     if not q:
         fam.defect_model("c16-asis-walk", STATIC, "FixWalk", ["WalkAtomic", "WalkPrefix"])
     return fam.finish(RULE)
